@@ -75,7 +75,7 @@ def main(argv):
             f.write(blob)
     dump()
     atheris.Setup([argv[0], '-runs=%d' % runs, '-seed=%d' % seed, '-max_len=8192', '-len_control=0', '-print_final_stats=1',
-                   corpus],
+                   '-artifact_prefix=%s/' % outdir, corpus],
                   test.hypothesis.fuzz_one_input)
     atheris.Fuzz()
 
